@@ -114,11 +114,13 @@ class Client:
 class Server:
     """One standalone server process in its own directory."""
 
-    def __init__(self, databases=16, shardnum=16, tags="verif", race=False, env=None):
+    def __init__(self, databases=16, shardnum=16, tags="verif", race=False, env=None, conf_text=None):
         self.bin = build_server(tags, race)
         self.dir = common.scratch("srv-")
         self.port = free_port()
+        # conf_text: a template with {port} and {dir} (to start the server from configuration files of other shapes)
         open(os.path.join(self.dir, "redis.conf"), "w").write(
+            conf_text.format(port=self.port, dir=self.dir) if conf_text is not None else
             "host 127.0.0.1\nport %d\nlogdir %s\nloglevel panic\nshardnum %d\ndatabases %d\n" % (self.port, self.dir, shardnum, databases))
         self.log = open(os.path.join(self.dir, "stdout.log"), "wb")
         self.p = subprocess.Popen([self.bin, "--config", "redis.conf"], cwd=self.dir, stdout=self.log, stderr=subprocess.STDOUT,
